@@ -51,7 +51,9 @@ REQUIRED_COUNTERS = ['specs_parsed', 'simulations_compared',
                      'list_of_ranges_specs',
                      'expansions_after_reregistration',
                      'splitting_simulations_expanded',
-                     'specs_written_by_generate_input']
+                     'specs_written_by_generate_input',
+                     'specifications_expanded_twice',
+                     'method_counts_compared']
 
 CODE_POOL = {
     'Toric2DCode': [(2, 2), (3, 3), (2, 3), (3, 4), (4, 4)],
@@ -264,13 +266,17 @@ def observed_tuple(sim, given_keys):
             sim.error_rate)
 
 
-def check_spec(out, spec, ref, desc, mech, ref_dec_keys):
+def check_spec(out, spec, ref, desc, mech, ref_dec_keys, spec_obj=None,
+               expected_types=None):
     from panqec.simulation import read_input_dict
     from panqec.simulation._batch_simulation import (
         expand_input_ranges, get_runs)
     work = os.environ.get('PV_WORK') or tempfile.gettempdir()
     path = os.path.join(work, f'c13-{os.getpid()}.json')
-    spec_copy = json.loads(json.dumps(spec))
+    # spec_obj: the very dict that was expanded before (a script that reads
+    # the same specification twice, or counts its runs first)
+    spec_copy = json.loads(json.dumps(spec)) if spec_obj is None else spec_obj
+    check_spec.last_object = spec_copy
     try:
         with contextlib.redirect_stdout(io.StringIO()):
             batch = read_input_dict(spec_copy, path, verbose=False)
@@ -284,6 +290,19 @@ def check_spec(out, spec, ref, desc, mech, ref_dec_keys):
         return None
     out.count('specs_parsed')
     real_sims = list(batch._simulations)
+    if expected_types is not None:
+        # each entry is expanded with the method IT names (direct if none)
+        got_types = (sum(1 for x in real_sims
+                         if type(x).__name__ == 'DirectSimulation'),
+                     sum(1 for x in real_sims
+                         if type(x).__name__ == 'SplittingSimulation'))
+        out.count('method_counts_compared')
+        if got_types != tuple(expected_types):
+            out.violation(f'{mech}/method-of-the-simulations',
+                          f'{got_types[0]} direct and {got_types[1]} '
+                          f'splitting simulations built, the entries ask for '
+                          f'{expected_types[0]} and {expected_types[1]}',
+                          dict(desc, spec=spec))
     sims = []
     for sim in real_sims:
         if type(sim).__name__ == 'SplittingSimulation':
@@ -678,7 +697,23 @@ def run_specs(task, out):
                 dkeys = {k for t in ref for k, _ in t[4]}
                 desc = {'shape': shape, 'n_expected': len(ref), 'code': cls}
                 out.count('runs_form_specs')
-            sims = check_spec(out, spec, ref, desc, mech, dkeys)
+            et = None
+            if shape == 'list':
+                nd = sum(len(pr) for pt, pr in parts if 'method' not in pt)
+                ns = sum(len(pr) // max(1, len(pt['error_rate']))
+                         for pt, pr in parts if 'method' in pt)
+                et = (nd, ns)
+            elif shape == 'ranges':
+                et = (0, len(ref) // max(1, len(ranges['error_rate']))) \
+                    if 'method' in ranges else (len(ref), 0)
+            sims = check_spec(out, spec, ref, desc, mech, dkeys,
+                              expected_types=et)
+            if sims is not None and rng.random() < 0.5:
+                # the same dict object expanded a second time
+                check_spec(out, spec, ref, dict(desc, second_expansion=True),
+                           mech + '/second-expansion-of-one-dict', dkeys,
+                           spec_obj=check_spec.last_object)
+                out.count('specifications_expanded_twice')
             from pv.common import digest
             out.case(dict(desc, digest=digest(spec)),
                      nontrivial=len(ref) >= 2,
